@@ -1,0 +1,6 @@
+//go:build verif
+
+package lexer
+
+// ReservedWords lists the reserved identifiers (verification harness hook).
+func ReservedWords() []string { return append([]string{}, reserved...) }
